@@ -1,21 +1,30 @@
-(* Model of provider/buffered/provider.go (the buffered SweepingProvider wrapper).
-   Definitions only.
+(* Model of provider/buffered/provider.go (the buffered SweepingProvider wrapper), as
+   repaired by /repo commits 7d0480f and b36ad55.  Definitions only.
 
    The wrapper appends every StartProviding / ProvideOnce / StopProviding call, one
    item per key, to a persistent FIFO (go-dsqueue, TRUSTED to be a FIFO that survives
    Close + New on the same datastore).  A single worker goroutine repeatedly takes up
    to [batchSize] items (queue.GetN), groups them with [getOperations] and calls the
-   wrapped provider (provider.go:157-184):
+   wrapped provider:
 
        StartProviding(true,  ops[forceStartProvidingOp])     if non-empty
        StartProviding(false, ops[startProvidingOp])          if non-empty
+       StopProviding(        earlyStopOps)                   if non-empty
        ProvideOnce(          ops[provideOnceOp])             if non-empty
        StopProviding(        stopOps)                        if non-empty
 
+   PRIMARY MODEL: [get_op_step] / [get_operations] / [batch_calls] / [worker_calls]
+   (second half of this file).  A StopProviding queued before a ProvideOnce of the same
+   key, and not overridden by a later StartProviding, goes to the early stop group; an
+   item that cannot be parsed ([BBad]: mh.Cast fails in fromBytes) is skipped.
+
+   FORMER PROTOCOLS, kept as descriptions of the code before the two commits, with their
+   refutation theorems: [old_get_op_step] / [old_get_operations] / [old_batch_calls] /
+   [old_worker_calls] (first half).  There getOperations returned the error of an
+   undecodable item and the worker dropped THE WHOLE BATCH, and there was one stop group,
+   executed last, which cancelled a ProvideOnce queued after it.
+
    A key is an identity (N); two multihashes are the same key iff same identity.
-   [BBad] is a queued item whose key bytes are not a valid multihash (mh.Cast fails
-   in fromBytes): getOperations returns the error and the worker `continue`s, i.e.
-   THE WHOLE BATCH IS DROPPED (provider.go:166-170).
 
    Abstracted: the dsqueue itself (persistence, idle write timer), logging, the
    goroutine structure (one worker; the harness fixes the batch boundaries by
@@ -42,8 +51,8 @@ Definition setN (x : N) (l : list N) : list N := if memN x l then l else l ++ [x
 Record groups := { g_once : list N; g_start : list N; g_force : list N; g_stop : list N }.
 Definition groups0 : groups := {| g_once := []; g_start := []; g_force := []; g_stop := [] |}.
 
-(* one iteration of the loop of getOperations (provider.go:102-116) *)
-Definition get_op_step (g : groups) (o : bop) : option groups :=
+(* FORMER PROTOCOL: one iteration of the loop of getOperations before 7d0480f / b36ad55 *)
+Definition old_get_op_step (g : groups) (o : bop) : option groups :=
   match o with
   | BOnce k => Some {| g_once := g_once g ++ [k]; g_start := g_start g; g_force := g_force g; g_stop := g_stop g |}
   | BStart k => Some {| g_once := g_once g; g_start := g_start g ++ [k]; g_force := g_force g;
@@ -55,16 +64,16 @@ Definition get_op_step (g : groups) (o : bop) : option groups :=
   | BBad => None
   end.
 
-Fixpoint get_ops_from (g : groups) (l : list bop) : option groups :=
+Fixpoint old_get_ops_from (g : groups) (l : list bop) : option groups :=
   match l with
   | [] => Some g
-  | o :: l' => match get_op_step g o with
-               | Some g' => get_ops_from g' l'
+  | o :: l' => match old_get_op_step g o with
+               | Some g' => old_get_ops_from g' l'
                | None => None
                end
   end.
-(* getOperations: None = the error return *)
-Definition get_operations (l : list bop) : option groups := get_ops_from groups0 l.
+(* former getOperations: None = the error return *)
+Definition old_get_operations (l : list bop) : option groups := old_get_ops_from groups0 l.
 
 (* the calls made on the wrapped provider *)
 Inductive icall :=
@@ -76,9 +85,9 @@ Inductive icall :=
 Definition call_if (c : list N -> icall) (ks : list N) : list icall :=
   match ks with [] => [] | _ => [c ks] end.
 
-(* one batch: provider.go:166-184 *)
-Definition batch_calls (l : list bop) : list icall :=
-  match get_operations l with
+(* FORMER PROTOCOL: one batch (an error drops it; one stop group, executed last) *)
+Definition old_batch_calls (l : list bop) : list icall :=
+  match old_get_operations l with
   | None => []
   | Some g => call_if (IStart true) (g_force g) ++ call_if (IStart false) (g_start g)
               ++ call_if IOnce (g_once g) ++ call_if IStop (g_stop g)
@@ -95,8 +104,8 @@ Fixpoint chunks_fuel (fuel n : nat) (l : list bop) : list (list bop) :=
   end.
 Definition chunks (n : nat) (l : list bop) : list (list bop) := chunks_fuel (length l) n l.
 
-Definition worker_calls (batch_size : nat) (l : list bop) : list icall :=
-  flat_map batch_calls (chunks batch_size l).
+Definition old_worker_calls (batch_size : nat) (l : list bop) : list icall :=
+  flat_map old_batch_calls (chunks batch_size l).
 
 (* ---- the effect of calls on the wrapped provider ------------------------------------
    The wrapped SweepingProvider reduced to what the property speaks about, for a node
@@ -147,17 +156,15 @@ Fixpoint no_once_after_stop_from (stopped : list N) (l : list bop) : bool :=
   end.
 Definition no_once_after_stop (l : list bop) : bool := no_once_after_stop_from [] l.
 
-(* ---- the proposed repair (/tmp/c17/fix-buffered.diff), transcribed --------------------------------
-   getOperations skips an item it cannot parse instead of failing, and a StopProviding
-   that was queued before a ProvideOnce of the same key (and not overridden by a later
-   StartProviding) goes to a second stop group that is executed after the StartProviding
-   calls and BEFORE ProvideOnce.  Theorems: Proofs/BufferedProofs.v (lemmas fix_...): keystore
-   equivalence for all operation lists including undecodable items, and both inclusions
-   on the keys waiting to be advertised without the side condition. *)
+(* ---- PRIMARY MODEL: getOperations and the worker loop as they are now ------------------------------
+   (provider.go:106-141 getOperations, :185-211 worker).  Theorems: Proofs/BufferedProofs.v
+   (lemmas fix_...): keystore equivalence for all operation lists including undecodable
+   items and every batching, and both inclusions on the keys waiting to be advertised
+   without side condition. *)
 Record fgroups := { fg : groups; fg_early : list N }.
 Definition fgroups0 : fgroups := {| fg := groups0; fg_early := [] |}.
 
-Definition fix_step (a : fgroups) (o : bop) : fgroups :=
+Definition get_op_step (a : fgroups) (o : bop) : fgroups :=
   let g := fg a in
   match o with
   | BOnce k =>
@@ -179,9 +186,13 @@ Definition fix_step (a : fgroups) (o : bop) : fgroups :=
                   fg_early := fg_early a |}
   | BBad => a
   end.
-Definition fix_operations (l : list bop) : fgroups := fold_left fix_step l fgroups0.
+Definition get_operations (l : list bop) : fgroups := fold_left get_op_step l fgroups0.
 
-Definition fix_batch_calls (l : list bop) : list icall :=
-  let a := fix_operations l in
+Definition batch_calls (l : list bop) : list icall :=
+  let a := get_operations l in
   call_if (IStart true) (g_force (fg a)) ++ call_if (IStart false) (g_start (fg a))
   ++ call_if IStop (fg_early a) ++ call_if IOnce (g_once (fg a)) ++ call_if IStop (g_stop (fg a)).
+
+(* the worker on a queue nobody appends to: consecutive chunks of batchSize items *)
+Definition worker_calls (batch_size : nat) (l : list bop) : list icall :=
+  flat_map batch_calls (chunks batch_size l).
